@@ -811,17 +811,17 @@ def process_vcs(read, T, log=None):
                 vs.goal("C08 the %s arm reads the %d samples starting %d before floor(instant): window == [floor(idx)-%d, floor(idx)-%d+%d) + 2L" % (
                     arm.name, W, off, off, off, W), z3.And(a_ == zfloor(idxn) - off + 2 * L, b_ - a_ == W))
                 if fname is not None:
-                    if "frac" not in es.vars:
-                        raise Undecided("anchor lost: no `frac` in arm %s" % arm.name)
-                    vs.goal("C08 the abscissa is the fractional part of the instant: frac == idx - floor(idx)",
-                            es.vars["frac"].t == idxn - z3.ToReal(zfloor(idxn)))
-                    calls = [rp.show(n[1]) for n in rp.walk(arm.chan_loop[3]) if n[0] == "call" and rp.show(n[1]).startswith("interp_")]
-                    args_ok = [n for n in rp.walk(arm.chan_loop[3]) if n[0] == "call" and rp.show(n[1]) == fname and
-                               [rp.show(x) for x in n[2]] == ["frac_offset", "buf"]]
-                    fo = [st_ for st_ in arm.stepping if st_[0] == "let" and st_[1][2] == ["frac_offset"]]
-                    fo_ok = bool(fo) and rp.show(fo[0][3]) in ("T::coerce(frac)", "T::coerce_from(frac)", "t!(frac)")
-                    ok = calls == [fname] and bool(args_ok) and fo_ok
-                    vs.goal("C08 the %s arm evaluates %s(frac, window) - the interpolant of its own degree" % (arm.name, fname), z3.BoolVal(ok))
+                    calls = [n for n in rp.walk(arm.chan_loop[3]) if n[0] == "call" and rp.show(n[1]).startswith("interp_")]
+                    ok = [rp.show(n[1]) for n in calls] == [fname] and len(calls[0][2]) == 2 and rp.show(calls[0][2][1]) == "buf"
+                    vs.goal("C08 the %s arm evaluates %s(abscissa, window) - the interpolant of its own degree" % (arm.name, fname), z3.BoolVal(ok))
+                    if ok:
+                        # the abscissa is whatever expression is passed, evaluated in the state after the stepping prefix (names are incidental)
+                        try:
+                            absc = es.ev(calls[0][2][0])
+                        except Undecided as e_:
+                            raise Undecided("abscissa `%s` of %s not evaluable: %s" % (rp.show(calls[0][2][0]), fname, e_))
+                        vs.goal("C08 the abscissa is the fractional part of the instant: %s == idx - floor(idx)" % rp.show(calls[0][2][0]),
+                                absc.t == idxn - z3.ToReal(zfloor(idxn)))
         mark2 = len(es.side)
         for s_ in arm.after:
             es.exec_stmt(s_)
@@ -1460,7 +1460,12 @@ def _run_type(args):
     return out
 
 
-def run_all(scratch, what=("process", "setters", "reset")):
+def run_all(scratch, what=("process", "setters", "reset"), c17=False):
+    """c17: keep only / drop the obligations labelled for C17 (conversions to the sample type belong to C17's check only)"""
+    return [o for o in _run_all(scratch, what) if (":: C17 " in o.name) == c17]
+
+
+def _run_all(scratch, what):
     import concurrent.futures as cf
     import multiprocessing as mp
     ctx = mp.get_context("fork")
@@ -1486,7 +1491,14 @@ ASSUME_TEXT = [
 
 def stage_for(prop, what=("process", "setters", "reset")):
     def stage(scratch, tier, log):
-        obs = run_all(scratch, what)
+        obs = run_all(scratch, what, c17=(prop == "C17"))
+        if prop == "C17":
+            # vacuity guard: a type whose VCs were lost (undecided, filtered above) must not pass silently
+            for T in KINDS:
+                if not any(o.name.startswith(T + ".") for o in obs):
+                    obs.append(Obligation("%s.process :: C17 conversion obligations were generated" % T, "extraction", UNDECIDED,
+                                          detail="no conversion obligation was generated for %s (the step VCs of its arms are undecided or the anchors are lost); "
+                                                 "run ./check C03 for the reason" % T, functions=[T + "::process_into_buffer"]))
         # native replay of function-level counterexamples (at most two per run)
         from . import replay_b
         n = 0
